@@ -257,6 +257,11 @@ def sig(c, r):
     s = sig0(c, r)
     if r.get("outcome") == "sanitizer":
         s["san"], s["where"] = san_kind(r)
+    if str(s.get("got", "")).startswith("std:"):
+        # undocumented std exception: its message (numbers blanked) is part of the signature, so that a known-finding
+        # entry for one such exception cannot absorb a different one
+        m = re.search(r"(?:undocumented exception \S+|got \S+ \()\s*(.*)", r.get("why") or "")
+        s["what"] = re.sub(r"\d+", "N", (m.group(1) if m else "").rstrip(")")).strip()[:80]
     return s
 
 
@@ -433,7 +438,7 @@ def run(chk):
                 "atlas holds every other chart kind (2D: open parameterised / closed negatively oriented Bezier spline; 3D: Extrude of a Circle / "
                 "Bezier with origin, offset and yaw-pitch-roll angles: generic, both gimbal-lock pitches +-1/4 with non-zero yaw and roll, explicit "
                 "zero vectors, identity) -- the written text must be the canonical form of the rotation the angles denote; mutations = truncation after "
-                "every line, delete/duplicate every counted line, delete every open/close line, +-1 on every declared count, size arity, every dim "
+                "every line, every markup line replaced by 9 degenerate markups (</>, < / >, <>, <//>, </Name/>, <Name//> ...), delete/duplicate every counted line, delete every open/close line, +-1 on every declared count, size arity, every dim "
                 "attribute to every other value, mesh type strings, every vertex/element/mapping index to bound and -1, unknown markup / stray "
                 "terminator / stray content at every position, every attribute removed, unknown attribute, closed markup, token count / non-number / "
                 "trailing garbage for every token (quick: all documents round-trip, mutations of 5 rich documents per shape); likewise every "
